@@ -161,12 +161,17 @@ func (t *Translator) convertToToolUse(toolCall map[string]interface{}) *ContentB
 		input = make(map[string]interface{})
 	}
 
-	return &ContentBlock{
+	block := &ContentBlock{
 		Type:  contentTypeToolUse,
 		ID:    id,
 		Name:  name,
 		Input: input,
 	}
+	if input != nil && json.Valid([]byte(argsStr)) {
+		// serialised as the model wrote it: the float64 values of Input round integers above 2^53
+		block.rawInput = json.RawMessage(argsStr)
+	}
+	return block
 }
 
 // map openai token counts to anthropic names
